@@ -96,7 +96,7 @@ both deadlines, all invalidation kinds (also at the clock reading of an insert),
 while the `remove` is queued. -/
 example : Spec.exactC03 .sync (some 7) (some 3) {} (Sync.trace
     { ttl := some 7, tti := some 3 }
-    [.adv 600000000, .ins 1 10, .ins 2 20, .adv 2, .get 1, .has 2, .iter, .sync, .adv 2, .get 1,
+    [.adv Gen.PAST_SYNC_INTERVAL_NS, .ins 1 10, .ins 2 20, .adv 2, .get 1, .has 2, .iter, .sync, .adv 2, .get 1,
      .has 2, .iter, .adv 2, .get 1, .sync, .adv 2, .get 1, .iter, .ins 3 30, .ins 4 40, .ins 3 31,
      .get 3, .inv 3, .get 3, .ins 3 32, .get 3, .iter, .invAll, .iter, .ins 6 60, .adv 1, .get 6,
      .invAll, .get 6, .sync, .iter, .ins 6 61, .get 6]) = true := by
@@ -114,7 +114,7 @@ example : Spec.exactC03 .sync (some 7) (some 3) {} (Sync.trace
 whole C03 oracle of the concurrent cache. -/
 example : Spec.oracleC03 .sync (some 10) (some 7) none (fun _ v => v % 4) (Sync.trace
     { cap := some 10, ttl := some 7, hasWeigher := true, w := fun _ v => v % 4 }
-    [.adv 600000000, .ins 1 1, .ins 2 2, .adv 3, .get 1, .ins 1 3, .iter, .sync, .adv 4, .has 2,
+    [.adv Gen.PAST_SYNC_INTERVAL_NS, .ins 1 1, .ins 2 2, .adv 3, .get 1, .ins 1 3, .iter, .sync, .adv 4, .has 2,
      .get 1, .inv 1, .ins 3 2, .ins 1 1, .iter, .get 3, .sync, .get 1]) = true := by
   decide +kernel
 
@@ -122,7 +122,7 @@ example : Spec.oracleC03 .sync (some 10) (some 7) none (fun _ v => v % 4) (Sync.
 (3) has run out in the cache's eyes; `sync` applies the hit and the entry is back (the oracle
 demands it from then on); key 2 is gone for good. -/
 example : (Sync.trace { ttl := some 9, tti := some 3 }
-    [.adv 600000000, .ins 1 10, .ins 2 20, .adv 2, .get 1, .adv 2, .get 1, .sync, .get 1, .has 2,
+    [.adv Gen.PAST_SYNC_INTERVAL_NS, .ins 1 10, .ins 2 20, .adv 2, .get 1, .adv 2, .get 1, .sync, .get 1, .has 2,
      .iter]).map
       (fun oo => match oo.2 with
         | .val v => v
